@@ -44,11 +44,12 @@ type seekableDecryptingReader struct {
 	numSegments   int64
 	plaintextLen  int64
 
-	pos       int64 // current plaintext position
-	segIndex  int64 // segment currently buffered, -1 if none
-	segStart  int64 // plaintext offset where the buffered segment begins
-	plaintext []byte
-	segBuf    []byte
+	pos          int64 // current plaintext position
+	lastVerified bool  // the last segment has been authenticated at least once
+	segIndex     int64 // segment currently buffered, -1 if none
+	segStart     int64 // plaintext offset where the buffered segment begins
+	plaintext    []byte
+	segBuf       []byte
 }
 
 const (
@@ -193,11 +194,24 @@ func (s *seekableDecryptingReader) loadSegment(j int64) error {
 	s.plaintext = plaintext
 	s.segIndex = j
 	s.segStart = s.plaintextStartOfSegment(j)
+	if j == s.numSegments-1 {
+		s.lastVerified = true
+	}
 	return nil
 }
 
 func (s *seekableDecryptingReader) Read(p []byte) (int, error) {
 	if s.pos >= s.plaintextLen {
+		// The plaintext length is derived from the (unauthenticated) ciphertext
+		// length. Do not report a clean end before the last segment — the only
+		// one sealed with the last-segment flag — has been authenticated: a
+		// ciphertext cut a few bytes behind a segment boundary, or down to the
+		// header plus one tag, would otherwise read as a shorter (or empty) part.
+		if !s.lastVerified {
+			if err := s.loadSegment(s.numSegments - 1); err != nil {
+				return 0, err
+			}
+		}
 		return 0, io.EOF
 	}
 	j := s.segmentForPlaintextOffset(s.pos)
